@@ -42,7 +42,7 @@ def gen(rng, tier):
     spec = {"form": form, "steps": steps, "input": rng.choice(["val", "val", "val", "exc", "exc", "exc-falsy"]),
             "input_at": rng.choice([None, 0, 0.05, 0.1]) if form == "f" else rng.choice([0, 0.05]),
             "base": rng.choice(["sync", "pool"]), "inner_at": rng.choice([0.02, 0.1]),
-            "cancel_at": rng.choice([None, None, None, 0, 0.05, 0.1]), "settle": 5.0}
+            "cancel_at": rng.choice([None, None, None, 0, 0.05, 0.1, "fn-running", "fn-running"]), "settle": 5.0}
     spec["sim"] = runner.draw_sim_cfg(rng, est=400)
     spec["sim"]["horizon_s"] = 5000
     return spec
@@ -116,7 +116,15 @@ def run(spec, env):
 
         def fn(x):
             env.rec("fn", k, desc(x))
+            env.hit("fn-running")
             sim.yield_point("user-fn")
+            try:
+                return body(x)
+            finally:
+                sim.yield_point("user-fn")
+                env.rec("fn-end", k)
+
+        def body(x):
             if b == "raise":
                 raise env.exc(("fn", k))
             if not flat:
@@ -143,7 +151,15 @@ def run(spec, env):
 
         def err(ex):
             env.rec("err", k, desc(ex))
+            env.hit("fn-running")
             sim.yield_point("user-fn")
+            try:
+                return ebody(ex)
+            finally:
+                sim.yield_point("user-fn")
+                env.rec("fn-end", k)
+
+        def ebody(ex):
             tag = getattr(ex, "tag", "TypeError")
             if b == "reraise":
                 raise ex
@@ -234,7 +250,9 @@ def run(spec, env):
             env.sleep(0.05)
 
     def canceller():
-        if spec["cancel_at"]:
+        if spec["cancel_at"] == "fn-running":
+            env.await_("fn-running", 2.0)      # land while a mapping function is executing
+        elif spec["cancel_at"]:
             env.sleep(spec["cancel_at"])
         i = env.rec("cancel")
         try:
@@ -286,6 +304,26 @@ def check(spec, env):
         elif nf > calls[(k, "fn")] or ne > calls[(k, "err")]:
             out.append({"oracle": "wrong-case", "sig": "fn-wrong-case|%s" % s["kind"],
                         "msg": "step %d (%s): fn called %d (at most %d expected), error_fn %d (at most %d)" % (k, s["kind"], nf, calls[(k, "fn")], ne, calls[(k, "err")])})
+    # a cancel() issued while a mapping function is executing cannot succeed: the input has
+    # completed (nothing left to cancel) and the output is not decided yet
+    for c in [e for e in log if e[3] == "cancel"]:
+        r = [e for e in log if e[3] == "cancel-ret" and e[5] == c[0]]
+        running = False
+        open_fns = 0
+        for e in log:
+            if e[0] >= c[0]:
+                break
+            if e[3] in ("fn", "err"):
+                open_fns += 1
+            elif e[3] == "fn-end":
+                open_fns -= 1
+        # (not judged when the chain ends cancelled anyway - cancel() then truthfully reports True -
+        #  or when a flat-map hands back a pending inner future, which can be cancelled)
+        if open_fns > 0 and r and r[0][4] is True and want[0] != "cancelled" \
+                and not any(s["fn"] in ("pending-val", "pending-exc", "cancelled") for s in spec["steps"]):
+            out.append({"oracle": "cancel-during-fn", "sig": "cancel-true-while-fn-running|%s" % shape.split(":")[0],
+                        "msg": "cancel() of the output returned True while a mapping function was executing (input already completed): "
+                               "the mapped outcome %r was dropped; chain %s %r" % (want, shape, spec["steps"])})
     if st[0] == "cancelled" and (cancelled_by_client or want[0] == "cancelled"):
         return out
     if st[0] == "pending":
